@@ -36,8 +36,12 @@ def strategy_(draw, thorough, row_level):
     pn = list(case.get("partition_on") or [])
     hive = opts.get("file_scheme") == "hive"
     cols = [c for c in fr["cols"] if c["kind"] in gfilters.FILTERABLE
-            and (c["name"] not in pn or hive)
+            and (c["name"] not in pn or hive or _plain_text_level(c, opts))
             and not (row_level and c["kind"] == "datetime" and c.get("tz"))]
+    pcols = [c for c in (cols or []) if c["name"] in pn]
+    if pcols and draw(st.integers(0, 3)) == 0:
+        # a program that names partition columns only: nothing but the directory names can answer it
+        cols = pcols
     if not cols:
         cols = None
     case["filters"] = draw(gfilters.program(cols, n)) if cols else {"flat": True, "groups": [[]]}
@@ -48,6 +52,26 @@ def strategy_(draw, thorough, row_level):
         names = [c["name"] for c in fr["cols"]]
         case["columns"] = draw(st.one_of(st.none(), st.lists(st.sampled_from(names), unique=True, max_size=len(names))))
     return case
+
+
+def _plain_text_level(col, opts):
+    """A drill directory level whose labels all stay text when read back (none looks like a number, date, duration or
+    null): its positional column dir<i> holds exactly the written texts, so conditions on it have a defined answer."""
+    if opts.get("file_scheme") != "drill" or col["kind"] not in ("text", "category") or col["null"]["pat"] != "none":
+        return False
+    if col["kind"] == "category" and col.get("labels") != "text":
+        return False
+    from vf.finding_predicates import _coercible
+    labels = col["cats"] if col["kind"] == "category" else col["pool"]
+    return all(isinstance(t, str) and t and not _coercible(t) and t.lower() not in ("nan", "nat", "none", "null", "now", "today")
+               for t in labels)
+
+
+def api_names(case):
+    """Partition columns of a drill dataset are called dir0, dir1, ... by position."""
+    if case["opts"].get("file_scheme") != "drill":
+        return {}
+    return {name: "dir%d" % i for i, name in enumerate(case.get("partition_on") or [])}
 
 
 class Prepared:
@@ -103,7 +127,7 @@ def prepare(case, d):
     for rid in p.rids:
         row = {name: cells[name][rid] for name in used}
         p.verdict[rid] = mfilters.evaluate(p.groups_model, row)
-    p.api_filters = gfilters.to_api(case["filters"])
+    p.api_filters = gfilters.to_api(case["filters"], api_names(case))
     return p
 
 
@@ -166,6 +190,9 @@ def labels_of(case, p=None):
                 labs.append("on_partition")
             if c["op"] in ("in", "not in") and not c["val"]:
                 labs.append("empty_list")
+    conds = [c for g in case["filters"]["groups"] for c in g]
+    if conds and pn and all(c["col"] in pn for c in conds):
+        labs.append("only_partition_conditions")
     labs.append("stats:%s" % (case["opts"].get("stats") if not isinstance(case["opts"].get("stats"), list) else "list"))
     if pn:
         labs.append("partitioned")
